@@ -40,6 +40,8 @@ func main() {
 	known := flag.String("known", "/verif/known_findings.json", "known findings file")
 	only := flag.String("only", "", "replay file: re-evaluate only that obligation")
 	list := flag.Bool("list", false, "print every obligation")
+	controls := flag.String("controls", "/verif/seeded", "directory of kept seeded changes used as positive controls (thorough tier, -selftest)")
+	doSelftest := flag.Bool("selftest", false, "apply every kept seeded change to a scratch copy and require the checker to fire; exit 2 if one stays silent")
 	describe := flag.Bool("describe", false, "print the registered properties (id, what is decided, assumptions) as JSON and exit")
 	flag.Parse()
 	if *describe {
@@ -50,6 +52,10 @@ func main() {
 		b, _ := json.MarshalIndent(out, "", " ")
 		fmt.Println(string(b))
 		return
+	}
+
+	if *doSelftest {
+		os.Exit(selftest(*repo, *controls, *known))
 	}
 
 	exit := 0
@@ -68,8 +74,14 @@ func main() {
 	if s := os.Getenv("VERIF_SEED"); s != "" {
 		seed, _ = strconv.ParseInt(s, 10, 64)
 	}
-	if t := os.Getenv("VERIF_TIER"); t != "" && (t == "quick" || t == "thorough") {
-		*tier = t
+	tierSet := false
+	flag.Visit(func(f *flag.Flag) {
+		if f.Name == "tier" {
+			tierSet = true
+		}
+	})
+	if t := os.Getenv("VERIF_TIER"); !tierSet && (t == "quick" || t == "thorough") {
+		*tier = t // only when the command line does not name the tier
 	}
 	start := time.Now()
 
@@ -182,6 +194,12 @@ func main() {
 	wall := time.Since(start).Seconds()
 	for _, id := range ids {
 		extra := map[string]interface{}{}
+		if *tier == "thorough" && *only == "" {
+			if cr := runControls(*repo, *controls, *known, []string{id}); cr != nil {
+				extra["positive_controls"] = cr
+				extra["positive_controls_rule"] = "each kept seeded change of this property (/verif/seeded/*, a realistic breaking patch confirmed by a failing demonstration) is applied to a scratch copy of the current tree and the same static rules are run on the copy; 'fired' lists the obligations violated on the copy and not on the tree itself. Informational: it shows the rules are not vacuous; it never changes this check's verdict."
+			}
+		}
 		nviol, lines, err := writeEvidence(*out, registry[id].Meta, *tier, seed, first, cfgNames, wall, extra)
 		if err != nil {
 			fmt.Printf("cannot write evidence for %s: %v\n", id, err)
